@@ -204,6 +204,24 @@ def gen_cases(ctx):
             if len(g["D"]) + len(g["B"]) <= 8:
                 cases.append({"kind": "mag", "g": g, "src": "mag5-rnd", "eseed": rng.randrange(1 << 30),
                               "fam": fams[k % len(fams)]})
+    # 5-node DAGs without v-structures (their PAG is the all-circle graph on a chordal skeleton: the whole
+    # result is produced by the "orient one edge, Meek closure" loop) - a few in quick, more in thorough
+    for k in range(160 if tier == "quick" else 1200):
+        order = list(range(5))
+        rng.shuffle(order)
+        D = []
+        for i, v in enumerate(order):          # perfect elimination order: parents of v form a clique
+            prev = order[:i]
+            if not prev:
+                continue
+            par = []
+            for u in rng.sample(prev, len(prev)):
+                if rng.random() < 0.75 and all(([p, u] in D or [u, p] in D) for p in par):
+                    par.append(u)
+            D += [[u, v] for u in par]
+        if 4 <= len(D) <= 7:
+            cases.append({"kind": "mag", "g": C.g_new(5, D=D), "src": "dag5-novstruct", "eseed": rng.randrange(1 << 30),
+                          "fam": fams[k % len(fams)]})
     # (b) structural clauses on arbitrary well-formed PAG instances: all on 3 nodes, random on 4..6
     for k, g in enumerate(C.enum_graphs(3, PAG_KINDS)):
         cases.append({"kind": "pag", "g": g, "src": "pag3"})
